@@ -16,7 +16,7 @@
 From Coq Require Import String Ascii List Bool ZArith Permutation.
 From LC Require Import Common NumDefs XmlDefs EntTreeDefs PrintDefs LoadDefs RoundtripSpec Load1xDefs To1xDefs
      RoundtripEncProofs TransformSimProofs TransformProofs TransformHoistProofs Load1xProofs Drop1xSpec Drop1xProofs
-     MathNsDefs MathNsProofs TransformImageProofs TransformImageMixedProofs.
+     MathNsDefs MathNsProofs TransformImageProofs TransformImageMixedProofs TransformRound6Proofs.
 From LCGen Require RuleTable.
 Import ListNotations.
 Local Open Scope string_scope.
@@ -224,6 +224,36 @@ Print Assumptions C14_math_rewrite_shape.
 Theorem C14_math_roundtrip : forall v x, math_ok1 x = true -> rewrite_math (conv_math v x) = x.
 Proof. intros. now apply TransformSimProofs.math_sim. Qed.
 Print Assumptions C14_math_roundtrip.
+
+(** proof depth round 6: the rewriting is a PROJECTION.  Where there is nothing to move it is the identity for ANY
+    attribute list / tree (no distinctness hypothesis); after it no attribute is left in a 1.0 / 1.1 namespace, no
+    attribute is lost or invented, and rewriting twice = rewriting once, at attribute, element and math-element level
+    ([distinct_below]: every element of the tree has attributes with distinct local names; [no_1x_attrs_below]: no
+    1.x-namespaced attribute anywhere in the tree) *)
+Theorem C14_math_rewrite_attrs_noop : forall l, forallb (fun a => negb (is1x a)) l = true -> rewrite_attrs l = l.
+Proof. exact TransformRound6Proofs.rewrite_attrs_noop. Qed.
+Print Assumptions C14_math_rewrite_attrs_noop.
+
+Theorem C14_math_rewrite_attrs_projection : forall l, names_distinct (map a_name l) = true ->
+  forallb (fun a => negb (is1x a)) (rewrite_attrs l) = true
+  /\ length (rewrite_attrs l) = length l
+  /\ rewrite_attrs (rewrite_attrs l) = rewrite_attrs l.
+Proof.
+  intros l H. split; [now apply TransformRound6Proofs.rewrite_attrs_clean|].
+  split; [now apply TransformRound6Proofs.rewrite_attrs_length|now apply TransformRound6Proofs.rewrite_attrs_idem].
+Qed.
+Print Assumptions C14_math_rewrite_attrs_projection.
+
+Theorem C14_math_rewrite_tree_projection :
+  (forall x, no_1x_attrs_below x = true -> rewrite_below x = x)
+  /\ (forall x, distinct_below x = true -> no_1x_attrs_below (rewrite_below x) = true)
+  /\ (forall x, distinct_below x = true -> rewrite_below (rewrite_below x) = rewrite_below x)
+  /\ (forall x, forallb distinct_below (xml_kids x) = true -> rewrite_math (rewrite_math x) = rewrite_math x).
+Proof.
+  split; [exact TransformRound6Proofs.rewrite_below_noop|]. split; [exact TransformRound6Proofs.rewrite_below_clean|].
+  split; [exact TransformRound6Proofs.rewrite_below_idem|exact TransformRound6Proofs.rewrite_math_idem].
+Qed.
+Print Assumptions C14_math_rewrite_tree_projection.
 
 (** * transform_preserves_everything_else: content preservation at full strength.  For EVERY CellML 1.0 / 1.1 document tree
       without CellML 2.0-namespaced reset / encapsulation / connection elements ([pure_1x]; any children in any order, any
